@@ -103,6 +103,10 @@ def getVolume (pi : Rat) (t : Tank) (lvl : Rat) : Rat :=
   | none => area pi t * lvl
   | some c => cinterp t.extrap lvl c
 
+/-- `store_results_in_network`: `tank._demand = Σ flow(INLET links) − Σ flow(OUTLET links) − tank._leak_demand` — the stored
+(and reported) tank demand is already NET of the leak; `update_tank_heads` integrates exactly this number -/
+def tankDemand (inflow outflow leak : Rat) : Rat := inflow - outflow - leak
+
 /-- `cur_level` of `update_tank_heads`: `tank.level` when `head == _prev_head`, else `_prev_head - (head - level)` -/
 def curLevel (t : Tank) (prevHead head : Rat) : Rat :=
   if head == prevHead then level t head else prevHead - (head - level t head)
@@ -291,6 +295,15 @@ structure Row where
   demand : Rat
   deriving Repr, Inhabited
 
+/-- a reported row of a tank with its leak: `linkNet` = Σ inlet link flows − Σ outlet link flows as reported for the links -/
+structure RowL where
+  time : Rat
+  head : Rat
+  demand : Rat
+  leak : Rat
+  linkNet : Rat
+  deriving Repr, Inhabited
+
 /-- stored volume at a reported head -/
 def volumeAt (pi : Rat) (t : Tank) (head : Rat) : Rat := getVolume pi t (level t head)
 
@@ -302,6 +315,21 @@ def integralOkPair (pi : Rat) (t : Tank) (rtol atol : Rat) (a b : Row) : Bool :=
   let scale := absR (volumeAt pi t b.head) + absR (volumeAt pi t a.head) + absR inflow
     + (match t.curve with | none => area pi t * (absR b.head + absR a.head) | some _ => 0)
   absR (dv - inflow) ≤ rtol * scale + atol
+
+/-- the integration identity with the leak made explicit: the reported demand is `linkNet − leak_demand` (flow balance at the
+tank) and the stored volume changes by `(linkNet − leak_demand)·dt` — the leak leaves the tank exactly once -/
+def integralOkPairLeak (pi : Rat) (t : Tank) (rtol atol qtol : Rat) (a b : RowL) : Bool :=
+  let dv := volumeAt pi t b.head - volumeAt pi t a.head
+  let net := tankDemand a.linkNet 0 a.leak
+  let inflow := net * (b.time - a.time)
+  let scale := absR (volumeAt pi t b.head) + absR (volumeAt pi t a.head) + absR inflow + absR (a.leak * (b.time - a.time))
+    + (match t.curve with | none => area pi t * (absR b.head + absR a.head) | some _ => 0)
+  absR (a.demand - net) ≤ qtol && absR (dv - inflow) ≤ rtol * scale + atol + qtol * (b.time - a.time)
+
+def tankIntegralLeakFirstBad (pi : Rat) (t : Tank) (rtol atol qtol : Rat) : List RowL → Nat → Option Nat
+  | a :: b :: rest, i =>
+    if integralOkPairLeak pi t rtol atol qtol a b then tankIntegralLeakFirstBad pi t rtol atol qtol (b :: rest) (i + 1) else some i
+  | _, _ => none
 
 def tankIntegralOk (pi : Rat) (t : Tank) (rtol atol : Rat) : List Row → Bool
   | a :: b :: rest => integralOkPair pi t rtol atol a b && tankIntegralOk pi t rtol atol (b :: rest)
